@@ -1,7 +1,11 @@
 """C02 - forward schedules never start a task before its prerequisites are finished.   (DESIGN.md section 5, C02)
 
 Decided: structural necessary conditions in ForwardScheduler.__forward_pass / calc / the availability search / the
-fill loop's first day.  Not decided: that the capacity arithmetic yields the right day (numeric).
+fill loop's first day; a summary used as a prerequisite ends at the max over ALL its children (roll-up rule shared with C07).
+Not decided: that the capacity arithmetic yields the right day (numeric).
+Round 4: the prerequisite collection is read through sched.PassShape.owners_of / collection_sources (own + ancestors in one
+comprehension or one loop over `[task] + all_parents`, extend(), lambda-parameterised helpers left by inlining); operands the
+Expander cannot resolve give UNDECIDED, REFUTED is kept for operands that were resolved and are wrong or missing.
 """
 from __future__ import annotations
 
@@ -51,6 +55,15 @@ def check(ctx):
     o = ctx.ob('milestone_placement', 'R8',
                "a milestone gets start = end = latest end among own and inherited prerequisites (or the bound), estimate = spent = 0", floor=4)
     ctx.guarded(o, lambda o: sched_dep.milestone_placement(ctx, o, ps, pt))
+
+    o = ctx.ob('summary_prerequisite_stands_for_all_its_leaves', 'R8',
+               "a summary task used as a prerequisite stands for its leaf descendants: its end is the max of the ends of ALL its "
+               "children (None filter only), taken after the children were scheduled - shared roll-up rule with C07", floor=1)
+
+    def summary_end(o):
+        from .c07 import rollup
+        rollup(ctx, o, ps, attrs=('end',))
+    ctx.guarded(o, summary_end)
 
     o = ctx.ob('search_never_moves_back', 'R8',
                "the availability search starts at the resource's nearest availability on/after the requested date and steps "
@@ -102,6 +115,8 @@ def fill_start(ctx, o, ps: PassShape):
         has_now = args is not None and any(sched_dep._is_now(a) for a in args)
         if has_start and has_now:
             o.site(ps.f, c, f"fill starts at {src(st)}")
+        elif isinstance(st, ast.Name) or (args is not None and sched_dep._opaque(args, ps, None)):
+            o.undecided(ps.f, c, c.args[2], f"work is booked from `{src(st)[:80]}`, which could not be resolved to a max() of known terms")
         else:
             o.refute(ps.f, c, c.args[2], f"work is booked from `{src(st)[:80]}`; expected max(task.start, now()): days before the "
                                          f"start or before today could be booked")
@@ -118,25 +133,45 @@ def fill_start(ctx, o, ps: PassShape):
 
 
 def first_day_offset(ctx, fill, S):
-    """offset (in days, relative to midnight(start_date)) of the day variable at the first reservation"""
+    """offset (in days, relative to midnight(start_date)) of the day variable at the first reservation.
+    Returns (offset, statement) | ('not-midnight', statement) | None (shape not understood).  When the cursor is moved by
+    conditional steps before the loop, several first days are possible: the one that deviates from the expected first day
+    (forward: midnight(start), backward: midnight(end) - 1 day) is reported together with the step that produces it."""
     prog = ctx.prog
     rc = sched.reserve_calls(ctx, fill)
     if len(rc) != 1:
         return None
     c = rc[0]
-    dvar = c.args[1]
+    dvar = c.args[1] if len(c.args) > 1 else None
     if not isinstance(dvar, ast.Name):
         return None
     fl = flow_of(fill)
+    cfg = fl.cfg
     loop = sched.while_loop_of(fill, c)
-    if loop is None:
+    if loop is None or len(fill.params) < 4:
+        return None
+    hdr = cfg.node_of(loop)
+    cn = cfg.node_containing(c)
+    if hdr is None or cn is None:
         return None
     start_p = fill.params[3]
-    off = None
-    init_stmt = None
+    want = 0 if S['dir'] == 1 else -1
+    ex = Expander(prog, fill, ctx.typer)
+
+    def in_loop(node):
+        return node is not None and cfg.can_reach(hdr, node) and cfg.can_reach(node, hdr)
+
+    def delta(stmt):
+        k = facts.day_delta(stmt.value)
+        if k is None or not isinstance(stmt.op, (ast.Add, ast.Sub)):
+            return None
+        return -k if isinstance(stmt.op, ast.Sub) else k
+
+    offsets = {}            # possible offset before the loop -> statement that produced it
+    pre_steps, loop_steps = [], []
     for d in fl.defs_of(dvar.id):
-        if d.kind == 'assign':
-            v = d.value
+        if d.kind == 'assign' and not in_loop(d.node):
+            v = ex.expand(d.value, d.node, stop={start_p})
             k = 0
             base = v
             if isinstance(v, ast.BinOp) and isinstance(v.op, (ast.Add, ast.Sub)) and facts.day_delta(v.right) is not None:
@@ -147,21 +182,27 @@ def first_day_offset(ctx, fill, S):
                 return 'not-midnight', d.stmt
             if mid is None or not (isinstance(mid, ast.Name) and mid.id == start_p):
                 return None
-            off = k
-            init_stmt = d.stmt
-    if off is None:
+            offsets.setdefault(k, d.stmt)
+        elif d.kind == 'aug':
+            (loop_steps if in_loop(d.node) else pre_steps).append(d)
+        else:
+            return None
+    if not offsets or len(loop_steps) != 1:
         return None
-    cfg = fl.cfg
-    cn = cfg.node_containing(c)
-    steps = [d for d in fl.defs_of(dvar.id) if d.kind == 'aug']
-    if len(steps) != 1:
-        return None
-    st = steps[0]
-    k = facts.day_delta(st.stmt.value)
+    for d in pre_steps:
+        k = delta(d.stmt)
+        if k is None or not cfg.can_reach(d.node, hdr):
+            return None
+        if cfg.dominates(d.node, hdr):
+            offsets = {o_ + k: d.stmt for o_, st_ in offsets.items()}
+        else:
+            offsets.update({o_ + k: d.stmt for o_ in list(offsets) if o_ + k not in offsets})
+    st = loop_steps[0]
+    k = delta(st.stmt)
     if k is None:
         return None
-    if isinstance(st.stmt.op, ast.Sub):
-        k = -k
     if cfg.dominates(st.node, cn):       # step executed before the reservation in the same iteration
-        off += k
-    return off, init_stmt
+        offsets = {o_ + k: st_ for o_, st_ in offsets.items()}
+    bad = [o_ for o_ in sorted(offsets) if o_ != want]
+    pick = bad[0] if bad else want
+    return pick, offsets[pick]
